@@ -229,7 +229,11 @@ def run(ctx):
             ev0, ch0, tie0 = evidence(ref), chosen(ref), has_tie(ref)
             hdr0 = {lab: v[0] for lab, v in ev0.items()}
             keys0 = {sh['label']: set(base.shape_keys(sh, cfg)) for sh in ref['shapes']}
-            for name, ckw, stable in channels(rng, g, tmpdir, "g%d" % i, bn):
+            # every fourth graph is written to the SAME paths / archive member names as the graph before it: what a channel returns must be
+            # the content the files have now, not what an earlier extraction of this process read there
+            tag = "g%d" % (i - 1 if i % 4 == 0 and i > 0 else i)
+            stats["graphs_rewritten_in_place"] = stats.get("graphs_rewritten_in_place", 0) + (i % 4 == 0 and i > 0)
+            for name, ckw, stable in channels(rng, g, tmpdir, tag, bn):
                 stats["channels"][name] = stats["channels"].get(name, 0) + 1
                 kind = "rdflib" if not stable or name == 'rdflib_graph' else "line"
                 try:
@@ -286,6 +290,67 @@ def run(ctx):
                     else:
                         viol.append({"what": "channel %s vs raw N-Triples: %s" % (name, why), "channel_kwargs": {k: str(v)[:80] for k, v in ckw.items()},
                                      "reference": ref_text[:1500], "got": text[:1500], **pipeline.case_json(g, cfg)})
+        # a big document (over a megabyte, so that it crosses many internal block boundaries of any buffered reader) whose IRIs are mostly
+        # multi-byte characters, through the line-based channels: compressed, archived, split
+        from shexer.consts import TSV_SPO
+        nbig = 3600 if ctx.tier == "quick" else 9000
+        names = ["東京都" * 7 + "ñ%d" % k for k in range(3)]
+        big = []
+        for k in range(nbig):
+            inst = EX + "ñandú" * 4 + "%d" % k
+            if k % 3 == 0:
+                big.append((('I', inst), RDF_TYPE, ('I', EX + "Cañón")))
+            big.append((('I', inst), EX + names[k % 3], ('L', "v%d" % (k % 5), XSD + 'string', None) if k % 2 else ('I', EX + "東" * 9 + "%d" % (k % 7))))
+        try:
+            big_nt = to_nt(big)
+            stats["big_document_bytes"] = len(big_nt.encode("utf-8"))
+            bkw = dict(all_classes_mode=True)
+            ref_text = Shaper(raw_graph=big_nt, input_format=C.NT, **bkw).shex_graph(string_output=True)
+            blines = big_nt.strip().split("\n")
+            third = len(blines) // 3
+            bch = []
+            for comp, const in (('gz', C.GZ), ('xz', C.XZ)):
+                path = os.path.join(tmpdir, "big.nt." + comp)
+                write(path, big_nt, comp)
+                bch.append(('big_nt_' + comp, dict(graph_file_input=path, input_format=C.NT, compression_mode=const)))
+                path = os.path.join(tmpdir, "big.ttl." + comp)
+                write(path, big_nt, comp)
+                bch.append(('big_turtle_iter_' + comp, dict(graph_file_input=path, input_format=C.TURTLE_ITER, compression_mode=const)))
+                path = os.path.join(tmpdir, "big.tsv." + comp)
+                write(path, to_tsv(big), comp)
+                bch.append(('big_tsv_' + comp, dict(graph_file_input=path, input_format=TSV_SPO, compression_mode=const)))
+                files = []
+                for j in range(3):
+                    path = os.path.join(tmpdir, "big_%d.nt.%s" % (j, comp))
+                    write(path, "\n".join(blines[j * third:(j + 1) * third if j < 2 else len(blines)]) + "\n", comp)
+                    files.append(path)
+                bch.append(('big_nt_files_' + comp, dict(graph_list_of_files_input=files, input_format=C.NT, compression_mode=const)))
+            path = os.path.join(tmpdir, "big.nt")
+            write(path, big_nt)
+            bch.append(('big_nt_file', dict(graph_file_input=path, input_format=C.NT)))
+            zpath = os.path.join(tmpdir, "big.zip")
+            with zipfile.ZipFile(zpath, "w", zipfile.ZIP_DEFLATED) as z:
+                z.writestr("a.nt", "\n".join(blines[:third]) + "\n")
+                z.writestr("b.nt", "\n".join(blines[third:]) + "\n")
+            bch.append(('big_zip', dict(graph_file_input=zpath, input_format=C.NT, compression_mode=C.ZIP)))
+            for name, ckw in bch:
+                stats["channels"][name] = stats["channels"].get(name, 0) + 1
+                try:
+                    text = Shaper(**ckw, **bkw).shex_graph(string_output=True)
+                except Exception as e:
+                    viol.append({"what": "channel %s (document of %d bytes, IRIs of multi-byte characters) failed: %s %s" % (name, stats["big_document_bytes"], type(e).__name__, str(e)[:120]),
+                                 "big_document": {"instances": nbig}, "channel_kwargs": {k: str(v)[:80] for k, v in ckw.items()}})
+                    continue
+                stats["comparisons"] += 1
+                if text != ref_text:
+                    a, b = ref_text.split("\n"), text.split("\n")
+                    first = next((k for k, (x, y) in enumerate(zip(a, b)) if x != y), min(len(a), len(b)))
+                    viol.append({"what": "channel %s vs raw N-Triples on a document of %d bytes whose IRIs are mostly multi-byte characters: the schemas differ, first at line %d: %r vs %r"
+                                         % (name, stats["big_document_bytes"], first, a[first:first + 1], b[first:first + 1]),
+                                 "big_document": {"instances": nbig}, "channel_kwargs": {k: str(v)[:80] for k, v in ckw.items()},
+                                 "reference": ref_text[:1200], "got": text[:1200]})
+        except Exception as e:
+            viol.append({"what": "big-document family: reference run failed: %s %s" % (type(e).__name__, str(e)[:120])})
     finally:
         shutil.rmtree(tmpdir, ignore_errors=True)
     # the TSV reader, line by line, against its model
